@@ -10,6 +10,7 @@ import (
 	"sort"
 	"strconv"
 	"strings"
+	"syscall"
 	"time"
 
 	"verif/sim/engine"
@@ -24,15 +25,22 @@ func StartWatchdog(limit time.Duration) {
 	go func() {
 		last := engine.Progress()
 		lastChange := time.Now()
+		cpuAtChange := cpuSeconds()
 		for {
 			time.Sleep(250 * time.Millisecond)
 			p := engine.Progress()
 			if p != last || !busy.Load() || engine.Idle.Get() {
-				last, lastChange = p, time.Now()
+				last, lastChange, cpuAtChange = p, time.Now(), cpuSeconds()
 				continue
 			}
-			if time.Since(lastChange) > limit {
-				note := fmt.Sprintf("no scheduling step for %s", limit)
+			// Judge by the CPU time this process consumed since the last
+			// step (library code spinning without reaching a yield point),
+			// so that an overloaded machine cannot trip the watchdog; a
+			// process that neither steps nor burns CPU is blocked (real
+			// mutex, deadlock) and gets six times the limit of wall time.
+			spun := cpuSeconds() - cpuAtChange
+			if spun > limit.Seconds() || time.Since(lastChange) > 6*limit {
+				note := fmt.Sprintf("no scheduling step for %.0fs of wall time (%.0fs of CPU time)", time.Since(lastChange).Seconds(), spun)
 				if emitWatchdog != nil {
 					emitWatchdog(curSeed.Load(), note)
 				}
@@ -41,6 +49,14 @@ func StartWatchdog(limit time.Duration) {
 			}
 		}
 	}()
+}
+
+func cpuSeconds() float64 {
+	var ru syscall.Rusage
+	if err := syscall.Getrusage(syscall.RUSAGE_SELF, &ru); err != nil {
+		return 0
+	}
+	return float64(ru.Utime.Sec+ru.Stime.Sec) + float64(ru.Utime.Usec+ru.Stime.Usec)/1e6
 }
 
 // RaceLog reads the increments of the race detector's log file
